@@ -416,6 +416,7 @@ def tup(x):
 
 class H(Harness):
     ID = 'C01'
+    ANCHOR_FILES = ['epydemic/compartmentedmodel.py', 'epydemic/loci.py', 'epydemic/opinion_model.py', 'epydemic/process.py', 'epydemic/networkdynamics.py', 'epydemic/drawset.py']
     TIE_IMPORT = 'From EpyV Require Import Model.Loci Tie.C01.'
     CHECK_FN = 'EpyV.Tie.C01.check_case'
     QUICK_N = 1400
